@@ -191,6 +191,7 @@ var nondetAllow = map[string]string{
 	"encryptModule":                  "AES-GCM nonce (excepted by the property)",
 	"signFooter":                     "AES-GCM nonce of the footer signature (excepted by the property)",
 	"newFileEncryptionState":         "random file identifier when none is configured (excepted by the property)",
+	"(*fileEncryptionState).newFileIdentifier": "random file identifier when none is configured, drawn per file: at construction and at Reset (excepted by the property)",
 	"hashprobe.init":                 "seeds of the dictionary hash tables: they decide probe order only, dictionary indexes are assigned in insertion order",
 	"hashprobe.randSeed":             "hash table seed (layout of the table only)",
 	"hashprobe/aeshash.init":         "random key of the in-memory hash function (never serialised)",
